@@ -1,5 +1,6 @@
 """C10 - Statistics and histograms equal their definition regardless of chunking or views."""
 import warnings
+import fractions
 import numpy as np
 
 from vtools.runner import Harness
@@ -249,7 +250,7 @@ def bin_oracle(env, v, lo, hi, n, band, exact_edges_excluded=False):
     return inr, idx
 
 
-def body_histogram(env, n=4, bins=3, weights=False, subset='mask', reversed_range=False, two_d=False):
+def body_histogram(env, n=4, bins=3, weights=False, subset='mask', reversed_range=False, two_d=False, log=False):
     from glue.core import subset as ss
     if env.symbolic:
         install_hist_stub()
@@ -263,9 +264,14 @@ def body_histogram(env, n=4, bins=3, weights=False, subset='mask', reversed_rang
         y = env.reals('y', shape, nan=True)
         comps['y'] = y
     d = mk_data('d', **comps)
-    lo = env.real('lo', lo=-50, hi=50)
-    wd = env.real('wd', lo=0.125, hi=50)
-    hi = lo + wd
+    if log:
+        # concrete range ends (their log10 is then the real double, which keeps the bin arithmetic linear for the solver)
+        lo, hi = LOG_RANGES[env.choice('log_range', len(LOG_RANGES))]
+        wd = hi - lo
+    else:
+        lo = env.real('lo', lo=-50, hi=50)
+        wd = env.real('wd', lo=0.125, hi=50)
+        hi = lo + wd
     rng = (hi, lo) if reversed_range else (lo, hi)
     if subset == 'mask':
         m = env.bools('m', shape)
@@ -306,21 +312,41 @@ def body_histogram(env, n=4, bins=3, weights=False, subset='mask', reversed_rang
             for b in range(nby):
                 env.close(got[a, b], want[a][b], 1e-9, '2-d histogram bin (%d,%d)' % (a, b))
         return
-    got = d.compute_histogram([d.id['x']], range=[rng], bins=[bins], weights=d.id['w'] if weights else None, subset_state=st)
+    if log:
+        # log space: equal-width bins over the closed range [log10 lo, log10 hi] of the log10 of the values (S-log10: the
+        # double-precision log10 is only assumed weakly monotone, so two doubles one ulp apart may have the same log10)
+        _HIST['true_hi'] = None
+        got = d.compute_histogram([d.id['x']], range=[rng], bins=[bins], weights=d.id['w'] if weights else None, subset_state=st,
+                                  log=[True])
+        if env.symbolic:
+            from vtools import symcore as sc
+            sc.log10_anchor(lo)
+            sc.log10_anchor(hi)
+        with np.errstate(all='ignore'):
+            lx = np.log10(x)
+        # exact rationals of the doubles log10(lo), log10(hi): the bin edges of the definition are then exact as well
+        llo, lhi = fractions.Fraction(float(np.log10(lo))), fractions.Fraction(float(np.log10(hi)))
+        vals_, lo_, hi_, band_ = lx, llo, lhi, float(lhi - llo) * 1e-9
+    else:
+        got = d.compute_histogram([d.id['x']], range=[rng], bins=[bins], weights=d.id['w'] if weights else None, subset_state=st)
+        vals_, lo_, hi_, band_ = x, lo, hi, band
     env.true(tuple(np.shape(got)) == (bins,), 'histogram shape')
     want = [0.0] * bins
     total = 0.0
     for i in range(n):
-        inr, idx = bin_oracle(env, x[i], lo, hi, bins, band, exact_excl)
+        inr, idx = bin_oracle(env, vals_[i], lo_, hi_, bins, band_, exact_excl)
+        if log:
+            inr = inr & (x[i] >= lo) & (x[i] <= hi)
         wi = w[i] if weights else 1.0
         for k in range(bins):
             want[k] = want[k] + env.ite(m[i] & inr & idx[k], wi, 0.0)
         total = total + env.ite(m[i] & inr, wi, 0.0)
     for k in range(bins):
-        env.close(got[k], want[k], 1e-9, 'histogram bin %d (bins=%d weights=%s subset=%s reversed=%s)' % (k, bins, weights, subset, reversed_range))
+        env.close(got[k], want[k], 1e-9, 'histogram bin %d (bins=%d weights=%s subset=%s reversed=%s log=%s)' % (k, bins, weights, subset, reversed_range, log))
     env.close(np.sum(got), total, 1e-9, 'bin totals equal the number (weight) of in-range selected values')
 
 
+LOG_RANGES = [(1.0, 1000.0), (0.5, 64.0), (10.0, 300.0), (0.125, 1.0)]
 KNOWN_DEMOS = {}
 
 
@@ -354,6 +380,10 @@ def harnesses(tier):
                 hs.append(Harness('histogram n=3 bins=3 weights=%s subset=%s' % (wts, sub), body_histogram,
                                   params=dict(n=3, bins=3, weights=wts, subset=sub, reversed_range=(sub == 'ineq')), validate=40,
                                   weight=4, bounds=dict(values=3, bins=3, weights=wts, subset=sub)))
+        for sub, wts in (('mask', False), ('none', True)):
+            hs.append(Harness('histogram log n=3 bins=2 weights=%s subset=%s' % (wts, sub), body_histogram,
+                              params=dict(n=3, bins=2, weights=wts, subset=sub, log=True), validate=40, weight=4,
+                              bounds=dict(values=3, bins=2, weights=wts, subset=sub, log=True, range=[list(r) for r in LOG_RANGES])))
         hs.append(Harness('histogram n=3 bins=1', body_histogram, params=dict(n=3, bins=1, subset='mask'), validate=40,
                           bounds=dict(values=3, bins=1)))
         hs.append(Harness('histogram 2-d n=2', body_histogram, params=dict(n=2, bins=2, subset='none', two_d=True), validate=40,
